@@ -5,6 +5,7 @@
     statement renders the property, and how the model is tied to /repo, is in DESIGN.md. *)
 From CB Require Import ProofLib Spec MonitorSound Results.
 From CB Require Import Inv_combine Inv_share.
+From CB Require Import Chain Programs.
 
 Theorem C01_map (f : val -> val) p (c : cfg (map_op f)) :
   std p -> reach p g_std c -> forall s, greet_once s (trace c) /\ greet_first s (trace c).
@@ -70,3 +71,13 @@ Theorem C01_combine (n : nat) p (c : cfg (combine_op n)) :
   1 <= n -> std p -> reach p g_std c -> (forall s, ~ In (VGreetTwice s) (viols (ms c)) /\ ~ In (VBeforeGreet s) (viols (ms c))).
 Proof. exact (@combine_c01 n p c). Qed.
 Print Assumptions C01_combine.
+
+(** ** programs: every component of every linear pipeline
+    [pipe!(from_iter(it), stages.. [, for_each(f)])] with stages from map/filter/scan/take/skip, of any
+    length, in every reachable state of the wired components (composition theorem, Chain.v/Programs.v) *)
+Theorem C01_pipeline it stages b N :
+  Forall ustage_ok stages -> net_reach (pipe_net it stages b) N ->
+  forall i n, nth_error (nodes N) i = Some n ->
+  forall s, greet_once s (ntrace n) /\ greet_first s (ntrace n).
+Proof. exact (fun Hok Hr i n Hn => pk_c01 (proj1 (@pipeline_protocol it stages b N Hok Hr i n Hn))). Qed.
+Print Assumptions C01_pipeline.
